@@ -364,6 +364,27 @@ func init() {
 		return nil
 	}
 	modelMods["sort.Ints"] = func(ex *Exec, ms *modSet) { c, s := ex.sliceComp(types.Typ[types.Int]); ms.add(c, s) }
+	// ---- k8s resource.Quantity: only the numeric value matters -------------------------------------------
+	qty := func(scale int64) modelFn {
+		return func(ex *Exec, fr *frame, st *State, reach *Term, args []Value, instr ssa.Instruction) Value {
+			vc := ex.vc
+			qt := ex.eng.parseType(ex.eng.typesPkg("k8s.io/apimachinery/pkg/api/resource"), "Quantity")
+			if qt == nil {
+				ex.unsupportedAt(instr, "resource.Quantity type not loaded")
+			}
+			r := ex.freshRef(st, reach, "quantity")
+			// unknown representation; only its milli-value is specified
+			qs := vc.SortOf(qt)
+			val := vc.FreshConst("quantity.val", qs)
+			ex.storeStructRef(st, r, qt, val)
+			vc.declare("k8s.quantity.milli", fmt.Sprintf("(declare-fun k8s.quantity.milli (%s) Int)", qs))
+			vc.Assume(reach, Eq(App("k8s.quantity.milli", SInt, val), vc.Arith("*", args[0].(*Term), IntLit(scale), intT())))
+			vc.note("trusted model of resource.NewQuantity/NewMilliQuantity: the result's milli-value is the argument (x1000 for NewQuantity); representation unspecified")
+			return r
+		}
+	}
+	models["k8s.io/apimachinery/pkg/api/resource.NewMilliQuantity"] = qty(1)
+	models["k8s.io/apimachinery/pkg/api/resource.NewQuantity"] = qty(1000)
 	models["strings.HasPrefix"] = func(ex *Exec, fr *frame, st *State, reach *Term, args []Value, instr ssa.Instruction) Value {
 		ex.vc.declare("str.prefixof", "(declare-fun str.prefixof (Str Str) Bool)")
 		return App("str.prefixof", SBool, args[1].(*Term), args[0].(*Term))
